@@ -52,6 +52,9 @@ def classes():
         LOG.append(('teardown', name, id(self)))
         if FAULTS.get('td_raise') == name:
           raise TdBoom('tearDown of %s failed' % name)
+        if FAULTS.get('td_exit') == name:
+          LOG.append(('teardown-end', name, id(self)))
+          raise SystemExit(4)       # (a driver's clean-up calling sys.exit(): not an Exception subclass)
         if FAULTS.get('td_hang') == name:
           t0 = time.time()
           while time.time() - t0 < 4.0:       # (abandoned after plug_teardown_timeout_s = 0.03 s when all is well)
@@ -127,9 +130,20 @@ def make_phase(name, req, behaviour, test_holder):
         time.sleep(0.0005)
     if behaviour == 'sigint':
       import os, signal  # pylint: disable=g-import-not-at-top,multiple-imports
-      while not h.Test.TEST_INSTANCES:       # (Ctrl-C while the test is running and registered for it)
+      # (Ctrl-C while THIS test is running and registered for it; the registry is process-wide and weakly referenced, so
+      # "non-empty" alone could still be an earlier run's entry)
+      while not any(t is test_holder['test'] for t in list(h.Test.TEST_INSTANCES.values())):
         time.sleep(0.001)
       os.kill(os.getpid(), signal.SIGINT)
+      while True:
+        time.sleep(0.0005)
+    if behaviour == 'abort2':
+      def twice():
+        test_holder['test'].abort_from_sig_int()
+        test_holder['test'].abort_from_sig_int()      # the operator insists: a forced abort
+      t = threading.Thread(target=twice, name='aborter')
+      t.daemon = True
+      t.start()
       while True:
         time.sleep(0.0005)
     if behaviour == 'abort':
@@ -163,7 +177,7 @@ def run_case(case):
   del LOG[:]
   FAULTS.clear()
   kind, arg = case['fault']
-  if kind in ('ctor', 'td_raise', 'td_hang', 'td_block'):
+  if kind in ('ctor', 'td_raise', 'td_hang', 'td_block', 'td_exit'):
     FAULTS[kind] = arg
   if kind == 'td_hang+slow':      # the tearDown of arg hangs; the tearDowns of the other plugs each take 0.1 s
     FAULTS['td_hang'], FAULTS['td_slow_others'] = arg, True
@@ -175,7 +189,7 @@ def run_case(case):
   phases = []
   for i, ridx in enumerate(case['phases']):
     beh = None
-    if kind in ('phase_raise', 'phase_stop', 'phase_hang', 'phase_abort', 'phase_sigint') and arg == i:
+    if kind in ('phase_raise', 'phase_stop', 'phase_hang', 'phase_abort', 'phase_abort2', 'phase_sigint') and arg == i:
       beh = kind.split('_')[1]
     phases.append(make_phase('ph%d' % i, REQUESTS[ridx], beh, holder))
   ts = TEST_STARTS[case['test_start']]
@@ -242,7 +256,7 @@ def expected_outcome(case):
     return 'ERROR'
   if kind == 'ts_stop':
     return 'FAIL'
-  if kind in ('ts_abort', 'phase_abort', 'phase_sigint'):
+  if kind in ('ts_abort', 'phase_abort', 'phase_abort2', 'phase_sigint'):
     return 'ABORTED'
   if kind == 'phase_raise':
     return 'ERROR'
@@ -337,7 +351,7 @@ def cases(tier):
   slow = [('td_hang+slow', 'A'), ('td_hang+slow', 'B')]
   for j in range(nph):
     faults += [('phase_raise', j), ('phase_stop', j), ('phase_hang', j), ('phase_abort', j)]
-  faults += [('phase_sigint', 0)]
+  faults += [('phase_sigint', 0), ('phase_abort2', 0), ('phase_abort2', nph - 1), ('td_exit', 'A'), ('td_exit', 'B')]
   reqs = range(len(REQUESTS))
   for ph in itertools.product(reqs, repeat=nph):
     if tier == 'thorough' and sum(1 for r in ph if r == 0) > 1:
